@@ -16,10 +16,20 @@ From Verif Require Import Lib.Base Model.C16_Paths Proofs.C16 Proofs.C16_Bytes P
 
 (* Whatever the graffiti provider, the auction (absent, failed, any result), the proposal (failed,
    any version, blinded or not, data present or not, right slot or not), the signer, the relays
-   and the submitter do, Propose does not panic. *)
-Theorem C16_propose_no_panic : forall i, is_panic (snd (propose_now i)) = false.
+   and the submitter do, Propose does not panic -- for every proposal the decoders can deliver.
+   [delivered] excludes exactly one shape they never produce: an unblinded Deneb proposal whose
+   contents pointer is nil, on which go-eth2-client's own accessor (VersionedProposal.Slot ->
+   proposalPresent: v.Deneb.Block) panics before Vouch sees anything. *)
+Theorem C16_propose_no_panic : forall i, delivered i -> is_panic (snd (propose_now i)) = false.
 Proof. exact propose_no_panic. Qed.
 Print Assumptions C16_propose_no_panic.
+
+(* That excluded shape does panic, with or without Vouch's guards: the hypothesis above is needed,
+   and the panic is the library's (found by the check's search; corpus/C16/nil-deneb-contents.json). *)
+Theorem C16_propose_library_nil_deneb : forall g i p,
+  p1_proposal i = Some p -> lib_nil_deneb p = true -> snd (propose g i) = Panic.
+Proof. exact lib_nil_deneb_panics. Qed.
+Print Assumptions C16_propose_library_nil_deneb.
 
 (* A blinded proposal although Vouch holds no auction result (no auctioneer, or the auction
    failed): the duty ends with an error after signing; no relay is asked and nothing is submitted. *)
@@ -32,8 +42,8 @@ Print Assumptions C16_propose_blinded_without_auction_falls_back.
 
 (* The nil check is exactly what was missing: without it the same code panics on precisely those
    inputs (the defect repaired on the tree: corpus/C16/blinded-without-auction-result.json). *)
-Theorem C16_propose_guard_necessary : forall i,
-  snd (propose false i) = Panic <-> exists p, reaches i p /\ pr_blinded p = true /\ no_auction_result i.
+Theorem C16_propose_guard_necessary : forall i, delivered i ->
+  (snd (propose false i) = Panic <-> exists p, reaches i p /\ pr_blinded p = true /\ no_auction_result i).
 Proof. exact propose_unguarded_panics_iff. Qed.
 Print Assumptions C16_propose_guard_necessary.
 
@@ -84,10 +94,10 @@ Example C16_propose_example :
   let i := {| p1_graffiti := GBytes [118; 111; 117; 99; 104]; p1_auction := AErr;
               p1_proposal := Some {| pr_version := 5; pr_blinded := true; pr_present := true; pr_slot_ok := true |};
               p1_sign_ok := true; p1_unblind_all := false; p1_unblind_ok := true; p1_submit_ok := true |} in
-  reaches i {| pr_version := 5; pr_blinded := true; pr_present := true; pr_slot_ok := true |} /\ no_auction_result i /\
+  delivered i /\ reaches i {| pr_version := 5; pr_blinded := true; pr_present := true; pr_slot_ok := true |} /\ no_auction_result i /\
   snd (propose_now i) = Err ENoAuction /\ snd (propose false i) = Panic /\
   snd (propose_now (with_auction i (ARes {| au_providers := []; au_all := [{| pv_id := 7; pv_unblinds := true |}] |}))) = Ok tt.
-Proof. cbn. repeat split; reflexivity. Qed.
+Proof. cbn. repeat split; try reflexivity. intros p H. injection H as <-. reflexivity. Qed.
 
 (* =========================================================================================== *)
 (* Path 2 — issueBuilderBidRequests over relay address strings.                                 *)
